@@ -20391,3 +20391,84 @@ mod tests {
 		assert!(node_a_chan.check_get_channel_ready(0, &&logger).is_some());
 	}
 }
+
+/// Verification hooks (feature `_verif_hooks` only); see `ln::verif_hooks`.
+#[cfg(feature = "_verif_hooks")]
+pub mod verif_hooks_monupd {
+	use super::*;
+
+	/// The monitor-update bookkeeping of a [`FundedChannel`], read-only.
+	#[derive(Clone, Debug, PartialEq, Eq)]
+	pub struct MonUpdView {
+		/// `context.latest_monitor_update_id`
+		pub latest_monitor_update_id: u64,
+		/// `MONITOR_UPDATE_IN_PROGRESS` is set
+		pub monitor_update_in_progress: bool,
+		/// `channel_state` is `ChannelReady(_)`
+		pub channel_ready: bool,
+		/// `AWAITING_REMOTE_REVOKE` is set
+		pub awaiting_remote_revoke: bool,
+		/// `PEER_DISCONNECTED` is set
+		pub peer_disconnected: bool,
+		/// update ids of `context.blocked_monitor_updates`, in queue order
+		pub blocked_update_ids: Vec<u64>,
+		/// `context.monitor_pending_revoke_and_ack`
+		pub monitor_pending_revoke_and_ack: bool,
+		/// `context.monitor_pending_commitment_signed`
+		pub monitor_pending_commitment_signed: bool,
+		/// `context.monitor_pending_channel_ready`
+		pub monitor_pending_channel_ready: bool,
+		/// `context.monitor_pending_forwards.len()`
+		pub monitor_pending_forwards: usize,
+		/// `context.monitor_pending_failures.len()`
+		pub monitor_pending_failures: usize,
+		/// `context.monitor_pending_finalized_fulfills.len()`
+		pub monitor_pending_finalized_fulfills: usize,
+		/// `context.monitor_pending_update_adds.len()`
+		pub monitor_pending_update_adds: usize,
+		/// `context.resend_order == RAACommitmentOrder::RevokeAndACKFirst`
+		pub resend_raa_first: bool,
+		/// `context.holding_cell_htlc_updates.len()`
+		pub holding_cell_htlc_updates: usize,
+		/// `context.holding_cell_update_fee.is_some()`
+		pub holding_cell_update_fee: bool,
+	}
+
+	impl<SP: SignerProvider> FundedChannel<SP> {
+		/// Read-only view of the fields the monitor-update pipeline depends on.
+		pub fn verif_monupd_view(&self) -> MonUpdView {
+			let ready = matches!(self.context.channel_state, ChannelState::ChannelReady(_));
+			MonUpdView {
+				latest_monitor_update_id: self.context.latest_monitor_update_id,
+				monitor_update_in_progress: self
+					.context
+					.channel_state
+					.is_monitor_update_in_progress(),
+				channel_ready: ready,
+				awaiting_remote_revoke: ready
+					&& self.context.channel_state.is_awaiting_remote_revoke(),
+				peer_disconnected: self.context.channel_state.is_peer_disconnected(),
+				blocked_update_ids: self
+					.context
+					.blocked_monitor_updates
+					.iter()
+					.map(|u| u.update.update_id)
+					.collect(),
+				monitor_pending_revoke_and_ack: self.context.monitor_pending_revoke_and_ack,
+				monitor_pending_commitment_signed: self.context.monitor_pending_commitment_signed,
+				monitor_pending_channel_ready: self.context.monitor_pending_channel_ready,
+				monitor_pending_forwards: self.context.monitor_pending_forwards.len(),
+				monitor_pending_failures: self.context.monitor_pending_failures.len(),
+				monitor_pending_finalized_fulfills: self
+					.context
+					.monitor_pending_finalized_fulfills
+					.len(),
+				monitor_pending_update_adds: self.context.monitor_pending_update_adds.len(),
+				resend_raa_first: self.context.resend_order
+					== RAACommitmentOrder::RevokeAndACKFirst,
+				holding_cell_htlc_updates: self.context.holding_cell_htlc_updates.len(),
+				holding_cell_update_fee: self.context.holding_cell_update_fee.is_some(),
+			}
+		}
+	}
+}
